@@ -616,6 +616,35 @@ def r10(F, R):
 
 
 
+
+def r12(F, R):
+    R.rule("C07-R12", "the initial search is not skipped: in every AdaptStrategy::init the step-size strategy's init (the doubling / halving search) lies on every "
+                      "path to `Ok(())` - whatever num_tune is; with no warm-up the searched step is the only thing that determines the step size")
+    n = 0
+    for b in F.trait_method_impls("AdaptStrategy", "init"):
+        site = "%s @%s" % (b.path, b.loc())
+        inits = [bb for bb, t in b.calls() if t["callee"].get("name") == "init" and path_ends(t["callee"].get("impl_self_adt") or "", "stepsize::adapt::Strategy")]
+        oks = [bi for bi, blk in enumerate(b.blocks) if not blk["cleanup"] and any(
+            st["k"] == "assign" and st["pl"]["l"] == 0 and not st["pl"]["p"] and st["rv"]["k"] == "agg" and st["rv"].get("variant") == "Ok" for st in blk["stmts"])]
+        n += 1
+        key = b.path + ":search-on-every-path"
+        if not inits:
+            R.bad("C07-R12", key, site, "no call of stepsize::adapt::Strategy::init")
+            continue
+        if not oks:
+            R.bad("C07-R12", key, site, "cannot find the `Ok(..)` result")
+            continue
+        reach = b.reach_from(0, avoid=inits)
+        skipped = [o for o in oks if o in reach]
+        if skipped:
+            sp = [st["span"] for st in b.blocks[skipped[0]]["stmts"] if st.get("span")]
+            R.bad("C07-R12", key, "%s @%s" % (b.path, loc(sp[-1])) if sp else site,
+                  "a path reaches Ok(()) without running the step-size search (stepsize Strategy::init): the chain samples with the configured initial "
+                  "step instead of a step whose one-step acceptance brackets the target")
+        else:
+            R.ok("C07-R12", key, site, "stepsize Strategy::init on every path to Ok (%d call(s), %d Ok site(s))" % (len(inits), len(oks)))
+    R.floor("C07-R12", 2)
+
 def run(F, R, config="all"):
     r1_r2(F, R)
     r3(F, R)
@@ -624,6 +653,7 @@ def run(F, R, config="all"):
     r7(F, R)
     r8(F, R)
     r10(F, R)
+    r12(F, R)
     # after warmup the step size in use is the averaged one: update_stepsize(.., use_best_guess = true) runs unconditionally (C06-R4 analysis)
     from . import c06
     K.borrow_rule(R, lambda sub: c06.r4(F, sub), "C07-R9", "after warmup adapt() calls update_stepsize(.., true) exactly once and unconditionally, so the step size "
